@@ -66,6 +66,13 @@ claim("C18", "other",
       "DESIGN.md §3 C18")
 
 
+claim("C20", "proof",
+      "auto-trait (Send/Sync) facts from the compiler plus compile-fail witnesses; unsafe/static/extern inventories; MIR pointer-provenance rule at every FFI call; call-graph reachability of lock writers from the evaluation entry points; clang AST inventory of C globals",
+      "Proof by obligations: Rust's type system excludes data races for safe code over Send/Sync types, so the property reduces to closing the holes. Obligations (all must discharge): the shared types are Send+Sync and Scope is Send but !Sync (compiler's own trait resolution, re-witnessed by compile_fail doc-tests with compiling twins in the thorough tier); every user-written unsafe block is FFI glue in dec.rs; at each of the 75 *mut FFI arguments the pointer provably designates a local of the calling frame or an exclusive &mut parameter (so the decNumber context and result buffers are private per call); none of the 104 statics is mutable or interior-mutable beyond its once-cell; from the evaluation entry points (call graph with dyn-Fn calls resolved by signature) no RwLock::write, Mutex, atomic write, thread-local or foreign RefCell mutation is reachable, the only acquisitions are reads, which neither exclude each other nor poison; the five compiled C files define no mutable object with static storage (3 audited read-only exceptions). All interleavings are covered because the argument is schedule-independent.",
+      "Trusted base: rustc's type checker/auto traits, soundness of std/regex/chrono/lazy_static, that decNumber writes only through its result and context arguments, the signature-based resolution of dyn calls, and the audited entries (regex::Regex statics, uarrone/allnines/mfctop in C). Deadlock freedom relies on evaluation taking read locks only; the build phase (ModelEvaluator::new) is single-threaded and is analysed under C12.",
+      "DESIGN.md §3 C20, §2.4 G5/G9")
+
+
 def main():
     checks = []
     for pid in sorted(CLAIMED):
